@@ -221,3 +221,82 @@ func propDirect(t *rapid.T) {
 func TestPropDirect(t *testing.T) { rapid.Check(t, propDirect) }
 
 var _ = rux.GET
+
+// propForwardAbort: a middleware of /x forwards the context to /y (Router.HandleContext) and a handler of the /y chain
+// aborts. The abort concerns the request: no handler of the /x chain that comes after the forwarding one may start,
+// the handlers suspended before it resume, IsAborted() is true afterwards.
+func propForwardAbort(t *rapid.T) {
+	ev.Case()
+	w := chain.NewWorld()
+	next := chain.Op{K: chain.OpNext}
+	nBefore := rapid.IntRange(0, 2).Draw(t, "nBefore")
+	nAfter := rapid.IntRange(1, 3).Draw(t, "nAfter")
+	var xs []*chain.Script
+	for i := 0; i < nBefore; i++ {
+		xs = append(xs, w.NewScript("before", next))
+	}
+	fwd := w.NewScript("forwarder", chain.Op{K: chain.OpForward, S2: "/y"}, next)
+	xs = append(xs, fwd)
+	for i := 0; i < nAfter; i++ {
+		xs = append(xs, w.NewScript("after", next))
+	}
+	ab := chain.Op{K: chain.OpAbort}
+	switch rapid.IntRange(0, 3).Draw(t, "abortKind") {
+	case 1:
+		ab = chain.Op{K: chain.OpAbortThen}
+	case 2:
+		ab = chain.Op{K: chain.OpAbortStatus, N: 403}
+	case 3:
+		ab = chain.Op{K: chain.OpAbortStatusMsg, N: 401, S: "no"}
+	}
+	nInner := rapid.IntRange(1, 3).Draw(t, "nInner")
+	at := rapid.IntRange(0, nInner-1).Draw(t, "abortAt")
+	var ys []*chain.Script
+	for i := 0; i < nInner; i++ {
+		ops := []chain.Op{next}
+		if i == at {
+			if rapid.Bool().Draw(t, "abortAfterNext") {
+				ops = []chain.Op{next, ab}
+			} else {
+				ops = []chain.Op{ab, next}
+			}
+		}
+		ys = append(ys, w.NewScript("y", ops...))
+	}
+	nGlobal := rapid.IntRange(0, 1).Draw(t, "nGlobal")
+	var body []*chain.Stmt
+	for i := 0; i < nGlobal; i++ {
+		body = append(body, &chain.Stmt{Kind: "use", Hs: []*chain.Script{w.NewScript("global", next)}})
+	}
+	body = append(body,
+		&chain.Stmt{Kind: "route", Path: "/x", Methods: []string{"GET"}, Main: xs[len(xs)-1], Variadic: xs[:len(xs)-1]},
+		&chain.Stmt{Kind: "route", Path: "/y", Methods: []string{"GET"}, Main: ys[len(ys)-1], Variadic: ys[:len(ys)-1]})
+	prog := &chain.Program{Body: body}
+	pm := prog.Model()
+	pm.EnableForward()
+	r := prog.Apply(w)
+	ev.Eval()
+	st := w.NewRequest("GET", "/x")
+	out := st.Serve(r)
+	ctx := fmt.Sprintf("scripts:\n%strace:\n%s", prog.Scripts(), out.Trace)
+	if out.Escaped != nil {
+		t.Fatalf("panic %v\n%s", out.Escaped, ctx)
+	}
+	if strings.Contains(out.Trace, "enter after") {
+		t.Fatalf("a handler of the forwarding chain started although the forwarded chain aborted the request\n%s", ctx)
+	}
+	// (global middleware legitimately runs once more for the forwarded dispatch, so the "never twice" predicate of
+	// checkTrace does not apply here)
+	if !strings.Contains(out.Trace, "after-abort aborted=true") || strings.Contains(out.Trace, "leave "+fwd.Name+" aborted=false") {
+		t.Fatalf("IsAborted() is not true after the abort in the forwarded chain\n%s", ctx)
+	}
+	chainS, ps, _ := pm.Expect("GET", "/x")
+	want, _ := chain.ModelDispatch(chainS, pm.Hooks, chain.NewRec(), st.Req, ps, false)
+	if d := chain.Diff(out, want); d != "" {
+		t.Fatalf("%s\n%s", d, ctx)
+	}
+	ev.Class("abort-inside-a-forwarded-chain")
+	ev.NonTrivial("fwd"+prog.Scripts(), func() string { return ctx })
+}
+
+func TestPropForwardAbort(t *testing.T) { rapid.Check(t, propForwardAbort) }
